@@ -184,32 +184,21 @@ func bufferAccesses(p Path, buf, offset string) []BufAccess {
 // codecTypeVars maps the codec's package-level reflect.Type variables to layout kinds.
 func codecTypeVars(p *Program, l *LayoutEngine) map[string]string {
 	out := map[string]string{}
-	pkg := p.Pkg(codecRel)
-	for _, f := range pkg.Syntax {
-		for _, d := range f.Decls {
-			gd, ok := d.(*ast.GenDecl)
-			if !ok || gd.Tok != token.VAR {
-				continue
-			}
-			for _, s := range gd.Specs {
-				vs := s.(*ast.ValueSpec)
-				for i, n := range vs.Names {
-					if i >= len(vs.Values) {
-						continue
-					}
-					call, ok := vs.Values[i].(*ast.CallExpr)
-					if !ok || len(call.Args) != 1 {
-						continue
-					}
-					fn := calleeObj(pkg.TypesInfo, call)
-					if fn == nil || fn.Pkg() == nil || fn.Pkg().Path() != "reflect" || fn.Name() != "TypeOf" {
-						continue
-					}
-					t := pkg.TypesInfo.TypeOf(call.Args[0])
-					k, _ := l.KindOf(t)
-					out["codec."+n.Name] = k
-				}
-			}
+	sp := p.SSAPkg(codecRel)
+	if sp == nil {
+		return out
+	}
+	for name, m := range sp.Members {
+		g, ok := m.(*ssa.Global)
+		if !ok {
+			continue
+		}
+		if typeName(g.Type().Underlying().(*types.Pointer).Elem()) != "reflect.Type" {
+			continue
+		}
+		if t := reflectTypeOfGlobal(g); t != nil {
+			k, _ := l.KindOf(t)
+			out["codec."+name] = k
 		}
 	}
 	return out
@@ -615,16 +604,15 @@ func analyseMarshal(p *Program, kf *KindFacts) {
 						}
 					}
 				}
-				if arg.Op == "call" && arg.Name == "fmt.Sprintf" && len(arg.Args) >= 1 {
-					if f, ok := arg.Args[0].StrVal(); ok {
-						if n, ok := sprintfDigits(f); ok {
-							sigs["bcd:"+f] = true
-							kf.Widths[int64((n+1)/2)] = true
-							if d := componentOrder(arg, "v"); d != "" {
-								kf.SigDetail += "; " + d
-							}
-							continue
+				if f, fargs, ok := textOf(arg, 0); ok {
+					f = canonicalDecimal(f, fargs, pa)
+					if n, ok := sprintfDigits(f); ok {
+						sigs["bcd:"+f] = true
+						kf.Widths[int64((n+1)/2)] = true
+						if d := componentOrder(fargs, "v"); d != "" {
+							kf.SigDetail += "; " + d
 						}
+						continue
 					}
 				}
 				sigs["?bcd("+arg.String()+")"] = true
@@ -656,11 +644,7 @@ func analyseMarshal(p *Program, kf *KindFacts) {
 }
 
 // componentOrder: the variadic arguments of a Sprintf over a struct value are its integer fields in declaration order.
-func componentOrder(call *Term, recv string) string {
-	if len(call.Args) < 2 || call.Args[1].Op != "sref" {
-		return ""
-	}
-	els := srefElems(call.Args[1])
+func componentOrder(els []*Term, recv string) string {
 	var fields []string
 	for _, e := range els {
 		x := e
